@@ -199,6 +199,11 @@ func (it *treeIterator) Seek(key node.Key) {
 	}
 
 	it.reset()
+	// No such key can be in the tree and its bit length cannot be represented.
+	if len(key) > node.MaxKeyLength {
+		it.setError(ErrKeyTooLong)
+		return
+	}
 	err := it.doNext(it.tree.cache.pendingRoot, 0, node.Key{}, key, visitBefore)
 	if err != nil {
 		// Make sure to invalidate the iterator on error.
